@@ -492,4 +492,368 @@ class OperCornerEngine(Engine):
     return {'obs': T('Done'), 'fails': fails[:3], 'nontrivial': case['kind'] == 'late' or len(case['calls']) >= 2, 'tags': [case['kind']] + tags}
 
 
-ENGINES = [OperEngine(), OperDynEngine(), OperCornerEngine()]
+def _has_int(v):
+  return v[0] == 'i' or (v[0] == 'l' and any(_has_int(x) for x in v[1]))
+
+
+def _bump(v):
+  if v[0] == 'i':
+    return ['i', v[1] + 100]
+  if v[0] == 'l':
+    return ['l', [_bump(x) for x in v[1]]]
+  return v
+
+
+class OperClearEngine(Engine):
+  """The replay clause carried out the way the property states it -- in the SAME process, through gin.clear_config()
+  (plain, or clear_constants=True with the Python-side constants defined again) -- for configurations that use the
+  built-in configurables that keep state outside the bindings: `@name/gin.singleton()` references (constructor = a
+  configurable class or function, possibly scoped, with its own root / scoped bindings, shared by several consumers,
+  inside lists, one singleton built from another), macros, Python constants, evaluated and plain references.  A history
+  may have an earlier epoch (another configuration, calls, clear_config) that must leave no trace.  Judged from the
+  property text (implementation only; the Gin machine model has no built-in configurables and replays in a second gin):
+    * the text, parsed into a fresh gin, has a section for exactly the (scope, configurable) pairs whose body ran
+      (probe bodies log the scope they ran in), plus one `name/gin.singleton` section per singleton reference that was
+      evaluated and one macro definition per macro used, nothing for constants; each section lists exactly the
+      parameters the caller did not supply in at least one call, plain values as used most recently;
+    * after gin.clear_config(), parsing the text and repeating the calls, every body execution (constructors included)
+      happens again in the same scope with the same arguments (objects compared by class, constructor arguments and
+      sharing pattern) and the text is reproduced; the same holds in a fresh gin."""
+  name = 'operative-cleared'
+  model = False
+  MOD = 'c07s'
+  CTORS = {'Enc': {'width': 8, 'depth': 2}, 'Dec': {'width': 4, 'mode': 'm'}, 'make': {'n': 0, 'tag': 't'}}
+  CONSUMERS = {'train': {'enc': None, 'steps': 10}, 'evalf': {'enc': None, 'split': 'dev'}, 'pair': {'x': None, 'y': None}}
+
+  def budget(self, tier):
+    return 120 if tier == 'quick' else 4000
+
+  def corpus(self):
+    sing = ['sing', 'shared']
+    return [
+        # one singleton built by a configurable class, shared by two consumers, three calls; plain clear_config()
+        {'consts': [], 'pre': None, 'full': False,
+         'stmts': [['bind', '', 'train.enc', sing], ['bind', '', 'evalf.enc', sing], ['bind', 'final', 'evalf.split', ['s', 'test']],
+                   ['sing', 'shared', 'Enc', ''], ['bind', '', 'Enc.width', ['i', 128]]],
+         'calls': [['', 'train', []], ['', 'evalf', []], ['final', 'evalf', []]]},
+        # constructor = a scoped function reference, bindings in the constructor's scope, a macro, a constant, the
+        # singleton inside a list; an earlier epoch built the same singleton from other bindings
+        {'consts': [['c07s.K', ['i', 3]]], 'full': False,
+         'pre': {'stmts': [['sing', 'grp/one', 'make', 'cs'], ['bind', 'cs', 'make.n', ['i', 100]], ['bind', '', 'pair.x', ['sing', 'grp/one']]],
+                 'calls': [['', 'pair', []]]},
+         'stmts': [['macro', 'mm', ['i', 7]], ['sing', 'grp/one', 'make', 'cs'], ['bind', 'cs', 'make.n', ['macro', 'mm']],
+                   ['bind', '', 'pair.x', ['l', [['sing', 'grp/one'], ['i', 1]]]], ['bind', 's1', 'pair.y', ['const', 'c07s.K']],
+                   ['bind', '', 'train.enc', ['ref', '', 'Dec', True]]],
+         'calls': [['s1', 'pair', []], ['', 'pair', [['y', ['i', 0]]]], ['', 'train', [['steps', ['i', 1]]]]]},
+        # one singleton built from another, clear_config(clear_constants=True)
+        {'consts': [], 'pre': None, 'full': True,
+         'stmts': [['sing', 'shared', 'Enc', ''], ['sing', 'aux', 'Dec', ''], ['bind', 'shared', 'Enc.depth', ['sing', 'aux']],
+                   ['bind', '', 'Dec.mode', ['s', 'q']], ['bind', '', 'train.enc', sing], ['bind', '', 'evalf.enc', ['sing', 'aux']]],
+         'calls': [['', 'train', []], ['s1', 'evalf', []]]},
+    ]
+
+  # ------------------------------------------------------------------ generator
+  def gen_epoch(self, rng, consts):
+    snames = rng.sample(['shared', 'aux', 'grp/one'], rng.randint(1, 2))
+    ctor_of = {}
+    stmts = []
+    macros = []
+    if rng.random() < 0.4:
+      macros.append('mm')
+      stmts.append(['macro', 'mm', ginm.gen_plain(rng, 0)])
+    for sn in snames:
+      ctor_of[sn] = rng.choice(sorted(self.CTORS))
+      stmts.append(['sing', sn, ctor_of[sn], 'cs' if rng.random() < 0.25 else ''])
+
+    def plainish():
+      x = rng.random()
+      if x < 0.15 and macros:
+        return ['macro', 'mm']
+      if x < 0.3 and consts:
+        return ['const', rng.choice(consts)[0]]
+      return rng.choice([['i', rng.randint(-3, 300)], ['s', rng.choice(['a', 'it\'s', 'x y'])], ['n'], ['l', [['i', rng.randint(0, 9)]]]])
+    for sn in snames:
+      ct = ctor_of[sn]
+      for p in self.CTORS[ct]:
+        if rng.random() < 0.5:
+          stmts.append(['bind', rng.choice(['', sn, 'cs', sn.split('/')[0]]), ct + '.' + p, plainish()])
+    if len(snames) == 2 and ctor_of[snames[0]] != ctor_of[snames[1]] and rng.random() < 0.4:
+      ct = ctor_of[snames[0]]         # the first singleton is built from the second one (no cycle: the constructors differ)
+      stmts.append(['bind', snames[0], ct + '.' + rng.choice(sorted(self.CTORS[ct])), ['sing', snames[1]]])
+    for cn in sorted(self.CONSUMERS):
+      for p in self.CONSUMERS[cn]:
+        x = rng.random()
+        if x < 0.35:
+          v = ['sing', rng.choice(snames)]
+        elif x < 0.45:
+          v = ['ref', rng.choice(['', '', 'cs']), rng.choice(sorted(self.CTORS)), rng.random() < 0.6]
+        elif x < 0.55:
+          v = ['l', [['sing', rng.choice(snames)], plainish()]]
+        elif x < 0.75:
+          v = plainish()
+        else:
+          continue
+        stmts.append(['bind', rng.choice(['', '', 's1', 'final']), cn + '.' + p, v])
+    calls = []
+    for _ in range(rng.randint(1, 5)):
+      cn = rng.choice(sorted(self.CONSUMERS))
+      calls.append([rng.choice(['', '', 's1', 'final', 's1/final']), cn,
+                    [[p, ['i', rng.randint(0, 5)]] for p in self.CONSUMERS[cn] if rng.random() < 0.25]])
+    return stmts, calls
+
+  def gen(self, rng, tier):
+    consts = [['c07s.K', ginm.gen_plain(rng, 0)]] if rng.random() < 0.4 else []
+    stmts, calls = self.gen_epoch(rng, consts)
+    pre = None
+    x = rng.random()
+    if x < 0.25:      # the same configuration with other numbers, the same calls
+      pre = {'stmts': [[s[0], s[1], s[2], _bump(s[3])] if s[0] == 'bind' else s for s in stmts], 'calls': calls}
+    elif x < 0.4:
+      ps, pc = self.gen_epoch(rng, consts)
+      pre = {'stmts': ps, 'calls': pc}
+    return {'consts': consts, 'pre': pre, 'stmts': stmts, 'calls': calls, 'full': rng.random() < 0.3}
+
+  def shrink(self, case):
+    if case['pre'] is not None:
+      yield dict(case, pre=None)
+      for f in ('stmts', 'calls'):
+        for i in range(len(case['pre'][f])):
+          yield dict(case, pre=dict(case['pre'], **{f: case['pre'][f][:i] + case['pre'][f][i + 1:]}))
+    for f in ('calls', 'stmts', 'consts'):
+      for i in range(len(case[f])):
+        yield dict(case, **{f: case[f][:i] + case[f][i + 1:]})
+
+  # ------------------------------------------------------------------ rendering
+  def rv(self, v):
+    t = v[0]
+    if t == 'l':
+      return '[' + ', '.join(self.rv(x) for x in v[1]) + ']'
+    if t == 'sing':
+      return '@%s/gin.singleton()' % v[1]
+    if t == 'ref':
+      return '@%s%s%s' % (v[1] + '/' if v[1] else '', v[2], '()' if v[3] else '')
+    if t in ('macro', 'const'):
+      return '%' + v[1]
+    return repr(plain_py(v))
+
+  def render(self, stmts):
+    out = []
+    for s in stmts:
+      if s[0] == 'macro':
+        out.append('%s = %s' % (s[1], self.rv(s[2])))
+      elif s[0] == 'sing':
+        out.append('%s/gin.singleton.constructor = @%s%s' % (s[1], s[3] + '/' if s[3] else '', s[2]))
+      else:
+        out.append('%s%s = %s' % (s[1] + '/' if s[1] else '', s[2], self.rv(s[3])))
+    return '\n'.join(out) + '\n'
+
+  # ------------------------------------------------------------------ the probes
+  def universe(self, gin, log):
+    class Obj:
+      kind = '?'
+
+      def __init__(self, state):
+        self.state = state
+        log.append((gin.current_scope_str(), self.kind, state))
+
+    class Enc(Obj):
+      kind = 'Enc'
+
+      def __init__(self, width=8, depth=2):
+        Obj.__init__(self, {'width': width, 'depth': depth})
+
+    class Dec(Obj):
+      kind = 'Dec'
+
+      def __init__(self, width=4, mode='m'):
+        Obj.__init__(self, {'width': width, 'mode': mode})
+
+    class Made(Obj):
+      kind = 'make'
+
+    def make(n=0, tag='t'):
+      return Made({'n': n, 'tag': tag})
+
+    def train(enc=None, steps=10):
+      log.append((gin.current_scope_str(), 'train', {'enc': enc, 'steps': steps}))
+
+    def evalf(enc=None, split='dev'):
+      log.append((gin.current_scope_str(), 'evalf', {'enc': enc, 'split': split}))
+
+    def pair(x=None, y=None):
+      log.append((gin.current_scope_str(), 'pair', {'x': x, 'y': y}))
+    probes = {}
+    for name, f in (('Enc', Enc), ('Dec', Dec), ('make', make), ('train', train), ('evalf', evalf), ('pair', pair)):
+      probes[name] = gin.external_configurable(f, name=name, module=self.MOD)
+    return probes, Obj
+
+  def canon_log(self, log, Obj):
+    """per top-level call: the constructor bodies that ran during it (as a sorted list: in which order the references of
+    one call are evaluated is not the property's business) and what the consumer body received; objects are numbered in
+    the order in which the consumers see them (call order, parameters by name)"""
+    seen = {}
+
+    def canon(v):
+      if isinstance(v, Obj):
+        if id(v) not in seen:
+          seen[id(v)] = len(seen)
+        return ['object', v.kind, sorted((k, canon(x)) for k, x in v.state.items()), 'identity #%d' % seen[id(v)]]
+      if isinstance(v, (list, tuple)):
+        return [type(v).__name__] + [canon(x) for x in v]
+      if isinstance(v, dict):
+        return ['dict'] + sorted((repr(k), canon(x)) for k, x in v.items())
+      if callable(v):
+        return ['callable', getattr(v, '__name__', '?')]
+      return repr(v)
+
+    def entry(e):
+      return [e[0], e[1], sorted((k, canon(x)) for k, x in e[2].items())]
+    consumers = {i: entry(e) for i, e in enumerate(log) if e[1] in self.CONSUMERS}      # numbers the objects
+    out, nested = [], []
+    for i, e in enumerate(log):
+      if i in consumers:
+        out.append({'constructed during the call': sorted(nested, key=repr), 'call': consumers[i]})
+        nested = []
+      else:
+        nested.append(entry(e))
+    if nested:
+      out.append({'constructed after the last call': sorted(nested, key=repr)})
+    return out
+
+  def run_calls(self, gin, probes, calls):
+    for sc, cn, kws in calls:
+      with gin.config_scope(sc or None):
+        probes[cn](**{k: plain_py(v) for k, v in kws})
+
+  def clear(self, gin, case):
+    if case['full']:
+      gin.clear_config(clear_constants=True)
+      for n, v in case['consts']:       # Python-side definitions, made again like any program start would
+        gin.constant(n, plain_py(v))
+    else:
+      gin.clear_config()
+
+  # ------------------------------------------------------------------ what the property text expects
+  def expected(self, case, log):
+    """sections and parameters, from the statements, the calls made and the (scope, name) of every body that ran"""
+    binds = {}
+    for s in case['stmts']:
+      if s[0] == 'bind':
+        sel, _, p = s[2].rpartition('.')
+        binds.setdefault((s[1], sel), {})[p] = s[3]
+      elif s[0] == 'sing':
+        binds.setdefault((s[1], 'gin.singleton'), {})['constructor'] = ['ref', s[3], s[2], False]
+    sigs = dict(self.CTORS, **self.CONSUMERS)
+
+    def applicable(scope, sel):
+      parts = scope.split('/') if scope else []
+      out = {}
+      for i in range(len(parts) + 1):
+        out.update(binds.get(('/'.join(parts[:i]), sel), {}))
+      return out
+
+    def uses(v, acc):
+      if v[0] == 'l':
+        for x in v[1]:
+          uses(x, acc)
+      elif v[0] in ('sing', 'macro'):
+        acc.add((v[0], v[1]))
+    # caller-supplied names: the consumer bodies ran once per call, in call order; constructors are never handed anything
+    supplied_of = iter([{k for k, _ in kws} for _, _, kws in case['calls']])
+    want, used = {}, set()
+    for sc, name, _ in log:
+      supplied = next(supplied_of) if name in self.CONSUMERS else set()
+      rec = {p: ('plain', d) for p, d in sigs[name].items()}
+      for p, v in applicable(sc, name).items():
+        rec[p] = ('plain', plain_py(v)) if v[0] in ('i', 's', 'n') or (v[0] == 'l' and not any(x[0] in ('sing', 'ref', 'macro', 'const') for x in v[1])) else ('other', None)
+        if p not in supplied:
+          uses(v, used)
+      for p in supplied:
+        rec.pop(p)
+      want.setdefault((sc, self.MOD + '.' + name), {}).update(rec)
+    for kind, n in used:
+      if kind == 'sing':
+        want[(n, 'gin.singleton')] = {'constructor': ('other', None)}
+      else:
+        want[(n, 'gin.macro')] = {'value': ('other', None)}
+    return {k: d for k, d in want.items() if d}
+
+  def impl(self, case):
+    fails, tags = [], []
+    gin = C.fresh_gin()
+    log = []
+    probes, Obj = self.universe(gin, log)
+    for n, v in case['consts']:
+      gin.constant(n, plain_py(v))
+    try:
+      if case['pre'] is not None:
+        gin.parse_config(self.render(case['pre']['stmts']))
+        self.run_calls(gin, probes, case['pre']['calls'])
+        self.clear(gin, case)
+        del log[:]
+        tags.append('earlier-epoch')
+      gin.parse_config(self.render(case['stmts']))
+      self.run_calls(gin, probes, case['calls'])
+    except Exception as e:  # pylint: disable=broad-except
+      return {'obs': T('CallError', type(e).__name__), 'fails': [], 'nontrivial': False, 'tags': ['call-error']}
+    raw1 = list(log)
+    first = self.canon_log(raw1, Obj)
+    history = 'configuration %r, calls %r%s' % (self.render(case['stmts']), case['calls'],
+                                               '' if case['pre'] is None else ' (after an earlier epoch: configuration %r, calls %r, clear_config)' % (
+                                                   self.render(case['pre']['stmts']), case['pre']['calls']))
+    try:
+      text = gin.operative_config_str()
+    except Exception as e:  # pylint: disable=broad-except
+      fails.append(('operative-config-str-raised', '%s: %s; %s' % (type(e).__name__, str(e)[:200], history)))
+      return {'obs': T('Done'), 'fails': fails, 'nontrivial': False, 'tags': tags}
+    want = self.expected(case, raw1)
+    nsing = sum(1 for k in want if k[1] == 'gin.singleton')
+    tags.append('singletons%d' % min(nsing, 2))
+
+    def replay(g, pr, lg, obj_cls, how):
+      try:
+        g.parse_config(text)
+        if how == 'fresh':       # the sections of the text, as its own parser reads them
+          got = {k: dict(d) for k, d in g.config._CONFIG.items()}  # pylint: disable=protected-access
+          if set(got) != set(want):
+            fails.append(('operative-sections', 'the text has sections %r; the bodies that ran / singletons and macros used give %r; '
+                          'text %r; %s' % (sorted(got), sorted(want), text, history)))
+          else:
+            for k in sorted(want):
+              if set(got[k]) != set(want[k]):
+                fails.append(('operative-parameters', 'section %r lists %r; Gin supplied %r; text %r; %s' % (
+                    k, sorted(got[k]), sorted(want[k]), text, history)))
+                break
+              bad = [p for p, (kind, v) in want[k].items() if kind == 'plain' and not C.strict_eq(got[k][p], v)]
+              if bad:
+                fails.append(('operative-parameters', 'section %r has %s = %r; the value Gin supplied most recently was %r; text %r; %s' % (
+                    k, bad[0], got[k][bad[0]], want[k][bad[0]][1], text, history)))
+                break
+        self.run_calls(g, pr, case['calls'])
+        text2 = g.operative_config_str()
+      except Exception as e:  # pylint: disable=broad-except
+        fails.append(('operative-text-does-not-replay', '%s: %s: %s; text %r; %s' % (how, type(e).__name__, str(e).splitlines()[0][:160], text, history)))
+        return
+      again = self.canon_log(lg, obj_cls)
+      if again != first:
+        fails.append(('replay-different-calls', '%s: the bodies that ran, with their scope and arguments, were %r; repeating the calls '
+                      'after parsing the operative text gives %r; text %r; %s' % (how, first, again, text, history)))
+      elif text2 != text:
+        fails.append(('replay-different-text', '%s: %r vs %r; %s' % (how, text, text2, history)))
+
+    # (1) in the same process, through clear_config
+    self.clear(gin, case)
+    del log[:]
+    replay(gin, probes, log, Obj, 'after gin.clear_config(%s) in the same process' % ('clear_constants=True' if case['full'] else ''))
+    # (2) in a fresh gin
+    gin2 = C.fresh_gin()
+    log2 = []
+    probes2, Obj2 = self.universe(gin2, log2)
+    for n, v in case['consts']:
+      gin2.constant(n, plain_py(v))
+    replay(gin2, probes2, log2, Obj2, 'fresh')
+    tags.append('replayed')
+    return {'obs': T('Done'), 'fails': fails[:3], 'nontrivial': nsing >= 1 and len(case['calls']) >= 2, 'tags': tags}
+
+
+ENGINES = [OperEngine(), OperDynEngine(), OperCornerEngine(), OperClearEngine()]
